@@ -50,6 +50,7 @@ fn driver(name: &str) -> Box<dyn Driver> {
         "hub_op" => Box::new(d_hubworld::HubOp),
         "registry_remove" => Box::new(d_world2::RegistryRemove),
         "dispatcher_swap" => Box::new(d_world2::DispatcherSwap),
+        "registry_auth" => Box::new(d_world2::RegistryAuth),
         "hub_migrate" => Box::new(d_migrate::HubMigrate),
         "reward_world" => Box::new(d_reward::RewardWorld),
         "token_world" => Box::new(d_token::TokenWorld),
